@@ -1,6 +1,7 @@
 import ZapVerif.Model.Core
 import ZapVerif.Proofs.Core
 import ZapVerif.Gen.FrontEnds
+import ZapVerif.Proofs.CoreSync
 /-! # C05 — an entry is written exactly where its level is enabled; reported levels agree
 
 All theorems are about the core algebra of `Model/Core.lean` (arbitrary trees, arbitrary — also non-monotone —
@@ -239,5 +240,16 @@ example :
     leafIds (check (fun _ => 1) (fun _ => none) 1
       (.tee [.incr (.leaf 1 (.fn fun _ => true) true []) (.fn fun l => decide (2 ≤ l)),
              .hooked (.sampler (.leaf 2 (.atomic 0) false []) 0 true) 9]) [] []) = [2] := by decide
+
+/-! ### Sync -/
+
+/-- `Logger.Sync` / `Core.Sync` reaches the sink of EVERY io leaf, exactly once each and in tree order, through every wrapper
+    (tee to all branches, level filters, hooks, samplers, lazy cores — which it initialises first), whatever the levels,
+    sampling decisions or the state of the lazy cells -/
+theorem sync_reaches_every_io_leaf (μ : Val) (c : Core) (w : W) :
+    syncIds (syncEv μ c w).evs = syncIds w.evs ++ ioLeaves c := syncEv_syncIds μ c w
+
+example : syncIds (syncEv (fun _ => 0) (.tee [.lazy 0 (.leaf 1 (.atomic 0) true []) [], .nop, .hooked (.leaf 2 (.atomic 0) true []) 7]) {}).evs = [1, 2] := by
+  decide
 
 end ZapVerif.C05
